@@ -82,6 +82,7 @@ class Scenario:
     media = False  # include the lazy media-resolution code in the scheduling set
     extra_funcs = ()  # further functions of the library whose every line is a scheduling point in this scenario
     extra_attrs = ()  # further shared-object attributes whose every mention is a scheduling point
+    opcode_files = ()  # package-relative files in which every BYTECODE of a scheduling-set line is a point (a switch inside one source line)
 
     def setup(self):
         """reset global state; -> list of task callables"""
@@ -186,6 +187,31 @@ class S3(Scenario):
 
     def after(self):
         return residue_problems() + lru_problems()
+
+
+class O1(S1):
+    """S1 with a scheduling point at every BYTECODE of the provide registries' code: the GIL can switch inside a line such
+    as `provide_references[provide_id].remove(reference_id)` (lookup, then mutation)"""
+    name = "O1_provide_error_path_opcodes"
+    bound_quick = 1
+    bound_thorough = 2
+    opcode_files = ("perfutil/provide.py",)
+
+
+class O2(S2):
+    name = "O2_provide_siblings_opcodes"
+    bound_quick = 1
+    bound_thorough = 2
+    opcode_files = ("perfutil/provide.py",)
+
+
+class O3(S3):
+    """S3 with a scheduling point at every bytecode of the LRU cache, of cached_template (get-then-set) and of the lazily
+    created cache singletons"""
+    name = "O3_template_cache_lru_opcodes"
+    bound_quick = 1
+    bound_thorough = 2
+    opcode_files = ("util/cache.py", "template.py", "cache.py")
 
 
 class S3c(S3):
@@ -541,7 +567,7 @@ def _norm_doc(html):
 
 
 # the cold-start scenarios come first: their executions are forked from this process, which must not have rendered anything yet
-SCENARIOS = {c.name: c for c in (L1a, L1b, S1, S1c, S2, S3, S3b, S3c, S4, S4b, S5, S6, S7, S8, S9)}
+SCENARIOS = {c.name: c for c in (L1a, L1b, S1, S1c, S2, S3, S3b, S3c, S4, S4b, S5, S6, S7, S8, S9, O1, O2, O3)}
 _SC = {}
 _SET = {}
 
@@ -592,10 +618,11 @@ def run_one(name, prefix, solo=None):
     else:
         lines, files, _ = get_set(sc.media, sc.extra_funcs, sc.extra_attrs)
     tasks = sc.setup()
+    opfiles = [os.path.join(sched.package_dir(), *f.split("/")) for f in getattr(sc, "opcode_files", ())]
     if solo is not None:
-        s = sched.Scheduler([tasks[solo]], [], lines, files, id_prefixes=[chr(ord("b") + solo)])
+        s = sched.Scheduler([tasks[solo]], [], lines, files, opcode_files=opfiles, id_prefixes=[chr(ord("b") + solo)])
     else:
-        s = sched.Scheduler(tasks, prefix, lines, files)
+        s = sched.Scheduler(tasks, prefix, lines, files, opcode_files=opfiles)
     x = s.run()
     x.after = sc.after()
     return x
